@@ -3,7 +3,7 @@
    composition (backup program -> archive -> restore) is in Props/C03.v etc. *)
 From Coq Require Import Sorted Permutation.
 From CV Require Import Base.Str Apath ApathP Entry Codec CodecP Tree TreeP.
-From CV Require Dest DestP DestTreeP.
+From CV Require Dest DestP DestTreeP Full FullP.
 
 (* Modification times: what backup stores decodes to the source time, for every
    timestamp (pre-1970 and sub-second included), with a legal nanosecond field. *)
@@ -185,3 +185,81 @@ Theorem C01_unlisted_parent_refuted :
       end.
 Proof. exact DestTreeP.without_parents_first_refuted. Qed.
 Print Assumptions C01_unlisted_parent_refuted.
+
+(* ------------------------------------------------------------------------- *)
+(* THE WHOLE ROUND TRIP IN ONE STATEMENT (Full.v joins the two sides: [full_restore] runs the
+   restore program on the archive and hands the entries and bytes it returns to the
+   destination loop).  From every [Ready] archive state, for every sorted, valid, well-formed
+   and tree-shaped source listing ([SrcTree]: directories before their contents, symlinks
+   with targets -- what a walk of a tree produces, see below) and every configuration, with
+   no earlier entry to reuse: the fault-free backup succeeds with no error, and restoring the
+   new version into an EMPTY destination reports no error, never resolves a path through a
+   symlink, and leaves there EXACTLY the source tree: at the path of every recorded source
+   item a directory, a file with the bytes read from the source, or a link with the source's
+   target -- and nothing at any other path. *)
+Theorem C01_backup_then_full_restore_builds_the_source_tree :
+  forall (pre : bytes -> N) (c : cfg) (src : list sitem) (a0 : Store.arch),
+    Ready pre a0 -> SrcSorted src -> SrcValid src -> SrcWF src -> cfg_ok c -> Full.SrcTree src ->
+    (forall it be, In it src -> s_kind (si_e it) = KFile -> ~ basis_match a0 it be) ->
+    exists tr a1 r,
+      run pre (backup_prog pre c src) a0 [] = (tr, a1, Store.Done r)
+      /\ b_ok r = true /\ b_errors r = 0 /\ b_band r = Some (new_band a0)
+      /\ exists rr s,
+           Full.full_restore pre (Specified (new_band a0)) false a1 [] = Full.FRestored rr s
+           /\ r_merr rr = 0
+           /\ Dest.d_esc s = 0 /\ Dest.d_errs s = 0
+           /\ Dest.d_done s = map spath (known_items src)
+           /\ forall p, p <> [] ->
+                Dest.node_at (Dest.d_fs s) p =
+                match Full.src_at (known_items src) p with
+                | Some it => Some (Full.src_node it)
+                | None => None
+                end.
+Proof. exact FullP.backup_then_full_restore_builds_the_source_tree. Qed.
+Print Assumptions C01_backup_then_full_restore_builds_the_source_tree.
+
+(* The same with reuse allowed: a file holds the bytes read from the source or, when kind,
+   mtime and size equal an earlier entry of that path, what that entry restored to. *)
+Theorem C01_backup_then_full_restore_with_reuse :
+  forall (pre : bytes -> N) (c : cfg) (src : list sitem) (a0 : Store.arch),
+    Ready pre a0 -> SrcSorted src -> SrcValid src -> SrcWF src -> cfg_ok c -> Full.SrcTree src ->
+    exists tr a1 r,
+      run pre (backup_prog pre c src) a0 [] = (tr, a1, Store.Done r)
+      /\ b_ok r = true /\ b_errors r = 0 /\ b_band r = Some (new_band a0)
+      /\ exists rr s,
+           Full.full_restore pre (Specified (new_band a0)) false a1 [] = Full.FRestored rr s
+           /\ r_merr rr = 0
+           /\ Dest.d_esc s = 0 /\ Dest.d_errs s = 0
+           /\ Dest.d_done s = map spath (known_items src)
+           /\ forall p, p <> [] ->
+                match Full.src_at (known_items src) p with
+                | Some it =>
+                    match s_kind (si_e it) with
+                    | KFile => exists d, Dest.node_at (Dest.d_fs s) p = Some (Dest.NFile d) /\ FullP.source_or_basis a0 it d
+                    | _ => Dest.node_at (Dest.d_fs s) p = Some (Full.src_node it)
+                    end
+                | None => Dest.node_at (Dest.d_fs s) p = None
+                end.
+Proof. exact FullP.backup_then_full_restore_builds_the_source_tree_with_reuse. Qed.
+Print Assumptions C01_backup_then_full_restore_with_reuse.
+
+(* [SrcTree] is what the source walk produces: the paths and kinds of a walk of any
+   well-formed tree (under any exclusions) list every directory before its contents. *)
+Theorem C01_walk_is_tree_shaped :
+  forall (M : Type) (excl : str -> bool) (t : tree M),
+    WFtree t -> Full.shape_parents_first (Full.walk_shape (walk_rec excl t)).
+Proof. exact (@FullP.walk_is_tree_shaped). Qed.
+Print Assumptions C01_walk_is_tree_shaped.
+
+(* ... and it is needed: with a file whose directory is not in the listing, the destination
+   holds something the source listing does not. *)
+Theorem C01_not_tree_shaped_refuted :
+  exists pre c src a0,
+    Ready pre a0 /\ SrcSorted src /\ SrcValid src /\ SrcWF src /\ cfg_ok c
+    /\ (forall b, Store.has_dir a0 (Store.DBand b) = false)
+    /\ forall tr a1 r rr s,
+         run pre (backup_prog pre c src) a0 [] = (tr, a1, Store.Done r) ->
+         Full.full_restore pre (Specified (new_band a0)) false a1 [] = Full.FRestored rr s ->
+         ~ FullP.holds_exactly src s.
+Proof. exact FullP.without_src_tree_refuted. Qed.
+Print Assumptions C01_not_tree_shaped_refuted.
